@@ -78,14 +78,17 @@ EXPLANATION = (
     '(interp_spectrum), in particular it is positive definite (between_pos_spd); '
     'code path facts: a successful interpolation always uses weights w >= 0 with sum 1 — never an extrapolation — and '
     'stores m = exp_m(log) (interpolateNode_convex); edge-split insertion is the same kernel with weights (1-t, t) '
-    '(interpolateEdge_is_interp); the two setters of ref_node keep the pair consistent (nodeMetricSet_pair, '
+    '(interpolateEdge_is_interp); the donor-side loop of the parallel whole-field transfer ref_metric_interpolate (four '
+    'zero-initialised rows, always four weights) computes exactly the per-vertex interpolant for tet and triangle '
+    'backgrounds (interpolateDonor_eq_node: serial and parallel paths agree); the two setters of ref_node keep the pair consistent (nodeMetricSet_pair, '
     'nodeMetricSetLog_pair, nodeMetricSet_consistent). '
     'Tied, not proved: bit comparison with the C of ref_node_metric_set/_set_log/_get/_get_log, the interpolation '
     'statements of ref_metric_interpolate_node and ref_node_interpolate_edge (stream metric_interp_kernel); the REAL '
     'ref_metric_interpolate_node (moved vertex) and ref_metric_interpolate_between (inserted vertex) run in process on '
     'tet and triangle bricks whose background is cached exactly as `ref adapt` does (ref_node_metric_set per vertex, '
     'ref_grid_cache_background): the donor cell and weights found by the search, the donors\' stored logs and the '
-    'receptor\'s stored pair are dumped and recomputed bit for bit by the model (metric_interp_grid, validate). '
+    'receptor\'s stored pair are dumped and recomputed bit for bit by the model; the real whole-field transfer '
+    'ref_metric_interpolate is run the same way on one rank (metric_interp_grid, validate). '
     'Oracles (independent 50-digit Jacobi exp/log, exact rational combination): stored log = sum w_i log_i, stored metric = '
     'exp of it, uniform fields reproduced, log-linear fields reproduced at the vertex position to 1e-9, eigenvalues '
     'inside the donors\' range. End to end: `ref adapt` (cli_adapt_metric: uniform reproduction and spectrum bounds at '
